@@ -733,8 +733,10 @@ def run(ctx):
                 "peer packet sizes incl. < 4096 and boundaries, sender windows either the peer's advertised window or "
                 "arbitrary u32; histories of 5..45 ops over both directions (send / send_stderr with boundary sizes "
                 "around window and max_packet-64, out-of-order hand-over, delivery, recv / recv_stderr with sizes "
-                "around the credit threshold, adjust timing); a history is non-trivial when distinct and at least "
-                "one data byte reached the wire")
+                "around the credit threshold, adjust timing, discarded extended types 0 and 3); a model-independent "
+                "directed sweep of request/window/max-packet boundary relations and of discards around the credit "
+                "threshold; >= 2 senders blocked on an exhausted window woken by one adjust; a history is non-trivial "
+                "when distinct and at least one data byte reached the wire")
     ctx.trusted += ["model coq/Model/C19.v step structure is hand-written; arithmetic is generated (gen/c19.py)",
                     "stub transport in harness/c19.py stands for Transport (only _send_user_message, "
                     "_sanitize_packet_size (the real function), get_log_channel are used by the anchored code)"]
@@ -744,7 +746,7 @@ def run(ctx):
     scale = 6 if ctx.thorough else 1
     sanitize_cases(ctx, 100 * scale)
     directed_oracle(ctx)
-    histories(ctx, 160 * scale, codes=[None, None, None, 1, 1, 0, 3], label="history")
+    histories(ctx, 130 * scale, codes=[None, None, None, 1, 1, 0, 3], label="history")
     blocked_runs(ctx)
     live_runs(ctx, 3 * (3 if ctx.thorough else 1))
 
